@@ -161,39 +161,11 @@ func runC17(r *Run) {
 	r.Rule("C17.R5")
 	c17Policy(r)
 
-	// R6: a request started for one group must be able to outlive that group's race (another
-	// group may still need its SCT): the per-log context is derived directly from the
-	// caller's context, never from a context the race cancels when it returns.
+	// R6: a request started for one group must be able to outlive that group's race (another group
+	// may still need its SCT), and a log waiting for its turn is given up only when the race is over:
+	// decided on the contexts and cancel functions of the race themselves (rules_t8c17.go).
 	r.Rule("C17.R6")
-	if fn := r.Fn("submission.groupRace"); fn != nil {
-		wc := CallsTo(fn, "context.WithCancel")
-		r.Check("groupRace:per-log-context", len(wc) >= 1, r.FnPos(fn), fmt.Sprintf("%d cancellable contexts created", len(wc)))
-		// the caller's context: the parameter of type context.Context, wherever it stands
-		ci := paramOfType(fn, func(t types.Type) bool { return types.TypeString(t, nil) == "context.Context" })
-		if ci < 0 {
-			r.Fail("groupRace:per-log-context.parent", r.FnPos(fn), "undecided: groupRace has no single context.Context parameter")
-		}
-		for _, c := range wc {
-			if ci >= 0 {
-				r.ExpectArg(c, "groupRace:per-log-context.parent", 0, fmt.Sprintf("p%d", ci))
-			}
-		}
-		nDefer := 0
-		eachInstr(fn, func(in ssa.Instruction) {
-			if d, ok := in.(*ssa.Defer); ok && glob("dyn(context.WithCancel(*)#1)", "dyn("+r.D.D(d.Call.Value)+")") {
-				nDefer++
-			}
-		})
-		r.Check("groupRace:no-race-wide-cancel", nDefer == 0, r.FnPos(fn), fmt.Sprintf("%d deferred cancellations of a context created in the race (in-flight requests other groups wait for would be cancelled)", nDefer))
-		// the context handed to SubmitToLog is that per-log context
-		for _, k := range keysOf(r.CallersOf("iface(submission.Submitter).SubmitToLog")) {
-			if f2 := r.P.Func(k); f2 != nil {
-				for _, sc := range CallsTo(f2, "iface(submission.Submitter).SubmitToLog") {
-					r.Check("groupRace:submit.context", glob("*context.WithCancel(*)#0*", r.D.D(CallArgs(sc)[1])) || glob("*new:context.Context#*", r.D.D(CallArgs(sc)[1])), r.Where(sc), "SubmitToLog runs under the per-log context: "+r.D.D(CallArgs(sc)[1]))
-				}
-			}
-		}
-	}
+	c17ContextsOfARace(r)
 
 	r.Rule("C17.R7")
 	c17RootsUnknownOnFailure(r)
